@@ -115,4 +115,72 @@ CLAIMS = {
                 "markup (<br />, tablerow tags) is removed before scanning.",
         "technique": "property-based taint testing with metamorphic origin confirmation (Hypothesis)",
     },
+    "C05": {
+        "level": "Generated-input search (Hypothesis): ~20k cases (~190k renders) per quick run: instrumented context "
+                 "objects of five shapes (plain instance, Mapping drop exposing a strict subset of keys, Sequence drop, "
+                 "__liquid__/__html__ object, nestings) whose Python-only attributes, methods, properties, class and "
+                 "module names carry unique sentinels, probed at ~70 lookup sites (path segments incl. dunders, "
+                 ".first/.last/.size, filter keys in string and lambda form, loops, partial/with/macro arguments, "
+                 "translation placeholders, json/default/date/babel filters, comparisons), sync and async. Oracle: no "
+                 "sentinel in output, filter inputs/results or error messages; no read of a non-protocol attribute in "
+                 "the access log; exposed keys render (positive control). Exploration only.",
+        "design_ref": "DESIGN.md §3 C05",
+        "note": "Permitted protocol names were derived empirically on CPython 3.12 and hard-coded in lv/props/c05.py; "
+                "interpreter-level special-method lookups bypass __getattribute__ and are governed by the information-"
+                "flow oracle only.",
+        "technique": "property-based information-flow testing with instrumented objects (Hypothesis)",
+    },
+    "C09": {
+        "level": "Model-free stateful testing: ~3k generated histories (quick; 40k thorough) + 64 fixed ones over shared "
+                 "Environments, loaders, Templates and the module-level default environment: render / render_async / "
+                 "analyze / from_string / get_template / clock advance / render with a fault injected at EVERY data "
+                 "access index of the clean run / register filter or tag on one environment / two render_async "
+                 "coroutines interleaved by a deterministic scheduler. After every step the same call is made on "
+                 "freshly built objects under the same fake clock and must agree; time-dependent output is also compared "
+                 "with the fake clock directly. Exploration; fault positions are enumerated exhaustively per history.",
+        "design_ref": "DESIGN.md §3 C09",
+        "note": "The fake clock replaces the datetime module attribute of liquid2.context and liquid2.builtin.filters."
+                "misc in the check's interpreter only; OS threads are not involved.",
+        "technique": "stateful property-based testing against fresh-object reference, fault enumeration, scheduled interleavings",
+    },
+    "C11": {
+        "level": "Generated-input search (Hypothesis): ~8k programs (quick; 200k thorough) with partials, extends chains, "
+                 "macros, lambdas, translate tags, each rendered with 6-8 data sets; runtime lookups (RenderContext.get/"
+                 "get_async/resolve), keys reaching the global namespace, invoked filters and executed tags are recorded "
+                 "by in-process wrapping and must be covered by one analyze() report and its helper methods; every "
+                 "reported span must slice exactly the variable path / filter name / tag; analyze_async must equal "
+                 "analyze field by field including spans. Exploration only.",
+        "design_ref": "DESIGN.md §3 C11",
+        "note": "Soundness only: over-approximation (extra globals) is not a violation, so mutants that merely add "
+                "reported names are equivalent for this property. The translate tag's implicit `translations` lookup is "
+                "exempt.",
+        "technique": "property-based testing: runtime trace vs static report (Hypothesis)",
+    },
+    "C15": {
+        "level": "Generated-input search (Hypothesis + enumeration): ~14k random + 6.3k enumerated templates per quick run "
+                 "mixing translate blocks and the five translation filters at every expression position, nesting and "
+                 "layout, with comments of all kinds; each rendered with data sets solved so that every site executes, "
+                 "against a logging Translations double. Every catalog lookup from a literal site must be extracted with "
+                 "the same gettext family, msgids, context and a line between the markup start and the literal; "
+                 "extraction never raises; translator comments attach only to the next message. Exploration only.",
+        "design_ref": "DESIGN.md §3 C15",
+        "note": "Non-literal operands/contexts, translation filters that are not first in the chain and ternary tail "
+                "filters are outside the claim (counted only).",
+        "technique": "property-based testing: runtime catalog log vs extracted messages (Hypothesis)",
+    },
+    "C16": {
+        "level": "Generated-input search (Hypothesis + enumeration): ~5k programs (quick) each with complete data and "
+                 "every single deletion of a referenced root/property (<= 12) plus a drawn multi-deletion, under "
+                 "Undefined / StrictUndefined / FalsyStrictUndefined (~30 renders per program); plus an enumerated table "
+                 "of ~5.3k value-flow probes (every filter with the missing operand as left value and as argument, every "
+                 "comparison and membership operator on either side, loops, ranges, keys, partial/macro arguments...). "
+                 "Oracle: default policy never raises UndefinedError; strict policies raise it only after an undefined "
+                 "value was created; no undefined is created for a path an independent resolver finds in scope; a strict "
+                 "outcome other than UndefinedError equals the default outcome. The probe table is exhaustive for its "
+                 "templates; the rest is exploration.",
+        "design_ref": "DESIGN.md §3 C16",
+        "note": "Undefined creations are recorded by subclassing the policy classes and by wrapping RenderContext.get in "
+                "the check's interpreter.",
+        "technique": "differential / metamorphic property-based testing across undefined policies (Hypothesis)",
+    },
 }
